@@ -146,6 +146,63 @@ class Graph:
             walks.append(walk)
         return walks, unreachable
 
+    def revisit_walks(self, budget=6000, seed=0):
+        """History diversity against hidden residue: for every moving edge s -> t, a walk
+        (shortest path to s) + edge + refusals at t that hinge on a SINGLE guard.  The edge cover executes each
+        (state, action) pair after one history only; an implementation that keeps hidden residue (a flag written
+        instead of removed, a stale entry) behaves differently in the same abstract state after another history,
+        and single-guard refusals are the calls whose outcome flips with such residue."""
+        rnd = random.Random(seed + 7919)
+        init = self.find_init()
+        prev = {init: None}
+        dq = collections.deque([init])
+        while dq:
+            u = dq.popleft()
+            for ei in self.out.get(u, []):
+                v = self.edges[ei]['_post']
+                if v not in prev:
+                    prev[v] = (u, ei)
+                    dq.append(v)
+
+        def path_to(k):
+            p = []
+            while prev[k] is not None:
+                u, ei = prev[k]
+                p.append(ei)
+                k = u
+            return p[::-1]
+
+        probes = {}
+        for k, outs in self.out.items():
+            c = [ei for ei in outs if self.edges[ei]['_post'] == k and not self.edges[ei]['exp']['ok']
+                 and len(self.edges[ei]['exp'].get('fails', [])) == 1 and not self.edges[ei]['exp'].get('free')]
+            probes[k] = c
+        moving = [i for i, e in enumerate(self.edges) if e['_post'] != e['_pre'] and e['_pre'] in prev
+                  and probes.get(e['_post'])]
+        rnd.shuffle(moving)
+        # every probe after every moving edge if that fits the step budget, else an even share per edge
+        total = sum(len(probes[self.edges[i]['_post']]) + 1 for i in moving)
+        per_edge = 0 if budget is None or total <= budget else max(1, budget // max(1, len(moving)) - 1)
+        max_walks = None if budget is None else budget // (per_edge + 1 if per_edge else 1)
+        walks = []
+        for ei in moving:
+            e = self.edges[ei]
+            c = list(probes.get(e['_post'], []))
+            if not c:
+                continue
+            # one probe per distinct (action name, failing guard) first, then at random
+            rnd.shuffle(c)
+            seen, first, rest = set(), [], []
+            for pi in c:
+                key = (self.edges[pi]['act'].get('name'), tuple(self.edges[pi]['exp']['fails']))
+                (rest if key in seen else first).append(pi)
+                seen.add(key)
+            pick = (first + rest)[:per_edge] if per_edge else first + rest
+            walks.append(path_to(e['_pre']) + [ei] + pick)
+            if max_walks and len(walks) >= max_walks:
+                break
+        return walks
+
     def node_cover_edges(self):
         """a set of edges whose walks visit every node: BFS tree edges"""
         init = self.find_init()
